@@ -401,7 +401,7 @@ func Diff(t *Tree, oc *Outcome, e *Expect) []string {
 		if !matched {
 			d = append(d, fmt.Sprintf("error %q mentions none of the expected causes %q", oc.Err, e.ErrAlts))
 		}
-		if strings.Contains(oc.Err, "Unknown option") {
+		if strings.Contains(strings.ToLower(oc.Err), "unknown") {
 			for _, c := range e.ErrAbsent {
 				if strings.Contains(oc.Err, c) {
 					d = append(d, fmt.Sprintf("error %q names %s, which is not the first unknown option", oc.Err, c))
